@@ -1,6 +1,7 @@
 package checks
 
 import (
+	"github.com/openfga/openfga/pkg/typesystem"
 	"context"
 	"fmt"
 	"runtime"
@@ -349,5 +350,81 @@ func C20(o *core.Options) int {
 			r.Sample(map[string]any{"shard": i, "config": cfgs[i%len(cfgs)].Name, "requests": res.Requests, "cancelled": res.Faulted, "max_settle_ms": res.MaxSettle})
 		}
 	}
+	c20Strategies(o, r)
 	return r.Finish()
+}
+
+
+// c20Strategies: termination under EVERY planner strategy assignment. The server-level runs above use the
+// server's own (random) planner, so a strategy-specific termination defect shows only when that strategy
+// happens to be chosen. Here the hand-made worlds (long cycles, wide fan-outs with the granting branch
+// first / last / absent) are checked through commands.CheckQuery over a resolver chain with the scripted
+// planner (as in C02), once per assignment of an offered strategy to every consulted plan key, with a
+// watchdog: every run must return.
+func c20Strategies(o *core.Options, r *core.Report) {
+	worlds := c20ExtraWorlds()
+	r.Set("forced_strategy_worlds", len(worlds))
+	r.Parallel(len(worlds), func(wi int) {
+		w := worlds[wi]
+		env, err := e2.NewEnv(w.M, server.WithRequestTimeout(0))
+		if err != nil {
+			return
+		}
+		defer env.Close()
+		for i := 0; i < len(w.Tuples); i += 50 {
+			j := i + 50
+			if j > len(w.Tuples) {
+				j = len(w.Tuples)
+			}
+			if err := env.Write(w.Tuples[i:j], env.ModelID); err != nil {
+				panic(err)
+			}
+		}
+		tds, conds := w.M.Proto()
+		ts, err := typesystem.NewAndValidate(context.Background(), &openfgav1.AuthorizationModel{Id: env.ModelID, SchemaVersion: "1.1", TypeDefinitions: tds, Conditions: conds})
+		if err != nil {
+			panic(err)
+		}
+		for _, cfg := range v1cfgs {
+			eng := newV1Engine(cfg)
+			stuck := false
+			for typ, rels := range w.M.Types {
+				for rel := range rels {
+					if len(w.U[typ]) == 0 || stuck {
+						continue
+					}
+					obj := w.U[typ][0]
+					_, capped := EnumerateAssignments(func(a map[string]string) (map[string][]string, map[string]string) {
+						if stuck {
+							return nil, nil
+						}
+						eng.sp.Reset(a)
+						done := make(chan struct{})
+						go func() { eng.check(env, ts, obj, rel, "user:a", nil); close(done) }()
+						r.Eval(1)
+						select {
+						case <-done:
+						case <-time.After(20 * time.Second):
+							stuck = true
+							off, ch := eng.sp.Snapshot()
+							r.Violate("request-does-not-return/check/forced-strategy", fmt.Sprintf("Check(%s#%s@user:a) on tuning %s with strategy assignment %s did not return within 20 s (no deadline set: it never returns); model{%s} %d tuples\n%s",
+								obj, rel, cfg.Name, assignKeyPrintable(ch, off), w.M, len(w.Tuples), goroutineDump()), map[string]any{"world": w, "tuning": cfg.Name, "object": obj, "relation": rel})
+							return nil, nil
+						}
+						off, ch := eng.sp.Snapshot()
+						if len(ch) > 0 {
+							r.Nontrivial(core.Hash("c20-strategy", w.M.String(), fmt.Sprint(len(w.Tuples)), cfg.Name, obj, rel, assignKeyPrintable(ch, off)))
+						}
+						return off, ch
+					}, 64)
+					if capped {
+						r.NotExhaustive("assignment closure cap (64) hit in the forced-strategy pass")
+					}
+				}
+			}
+			if !stuck {
+				eng.closer()
+			}
+		}
+	})
 }
